@@ -1,7 +1,7 @@
 (* C17: executable predicate the parser-level tie evaluates: the reader programs of Model/IOProgReader.v run on the
    same image, cut and failing call as the Go parsers; compared: ok/err/panic class, number of I/O calls made,
    and the value when the call succeeds.  No proofs here. *)
-From HV Require Import Base.Prelude Base.Outcome Base.Bytes Model.IOProg Model.IOProgReader.
+From HV Require Import Base.Prelude Base.Outcome Base.Bytes Model.IOProg Model.IOProgReader Model.IOProgOpen.
 From HV Require Import Model.CodecSuper Model.CodecOhdr Model.CodecMsg.
 
 Definition TIE_FUEL : nat := 4096.
@@ -30,6 +30,15 @@ Definition model_run (op : N) (sb : superblock') (img : bytes) (addr : N) (cut k
   else if op =? 6 then rc (p_gheap sb TIE_FUEL addr) (fun os => Some (VL (map (fun x => VL [VN (fst x); VB (snd x)]) os)))
   else if op =? 7 then rc (api_read_raw sb TIE_FUEL addr) (fun _ => None)
   else (Err, 0%nat).
+
+(* hdf5.Open on the image cut at [cut] (no call-level faults: the public API reads through *os.File) *)
+Definition open_ok (repaired : bool) (img : bytes) (vint : val) (case : Z * Z * N * N * N) : bool :=
+  match case with
+  | (cut, _, _, cls, _) =>
+      let f := if (cut <? 0)%Z then img else firstn (Z.to_nat cut) img in
+      let r := fst (run f nofault 0 (p_open repaired (blen f) TIE_FUEL TIE_FUEL)) in
+      (oclass r =? cls) && match r with Ok n => val_eqb (val_node n) vint | _ => true end
+  end.
 
 (* case = (cut, failing call, kind code, Go class, Go call count); vint = the Go value on the intact file *)
 Definition tie_ok (op : N) (img : bytes) (addr : N) (vint : val) : (Z * Z * N * N * N) -> bool :=
